@@ -3,6 +3,9 @@ use wxharness::*;
 
 fn main() {
 	let args: Vec<String> = std::env::args().collect();
+	if std::env::var("WXH_TRACE").is_ok() {
+		tracing_subscriber::fmt().with_env_filter(std::env::var("WXH_TRACE").unwrap()).with_writer(std::io::stderr).init();
+	}
 	let rt = tokio::runtime::Builder::new_multi_thread().worker_threads(2).enable_all().build().unwrap();
 	match args[1].as_str() {
 		"noop" => {
@@ -64,6 +67,14 @@ fn main() {
 			}
 		}
 		"ignores" => rt.block_on(ignores(&args[2], &args[3])),
+		"onbusy" => {
+			for case in read_cases(&args[2]) {
+				let rt = tokio::runtime::Builder::new_multi_thread().worker_threads(3).enable_all().build().unwrap();
+				let v = rt.block_on(onbusy(case, &args[3]));
+				emit(&v);
+				rt.shutdown_timeout(std::time::Duration::from_millis(200));
+			}
+		}
 		other => panic!("unknown subcommand {other}"),
 	}
 }
@@ -150,4 +161,86 @@ async fn ignores(cases: &str, base: &str) {
 		}
 		emit(&json!({"vcs": vcs.iter().map(|t| format!("{t:?}")).collect::<Vec<_>>(), "listed": listed, "verdicts": verdicts}));
 	}
+}
+
+// ---------------------------------------------------------------- C05 / C08 (CLI action handler in-process)
+
+fn mono_ms() -> u128 {
+	let mut ts = libc::timespec { tv_sec: 0, tv_nsec: 0 };
+	unsafe { libc::clock_gettime(libc::CLOCK_MONOTONIC, &mut ts) };
+	(ts.tv_sec as u128) * 1000 + (ts.tv_nsec as u128) / 1_000_000
+}
+
+async fn onbusy(case: Value, base: &str) -> Value {
+	use std::time::Duration;
+	use watchexec_events::{Event, FileType, Priority, Tag};
+	let id = case["id"].as_u64().unwrap();
+	let dir = std::path::Path::new(base).join(format!("o{id}"));
+	let _ = std::fs::remove_dir_all(&dir);
+	std::fs::create_dir_all(&dir).unwrap();
+	let dir = std::fs::canonicalize(&dir).unwrap();
+	let out = dir.join("child.log");
+	std::env::set_var("WXH_OUT", &out);
+	std::env::set_var("WXH_MODE", "run");
+	std::env::set_var("WXH_SCRIPT", case["child_script"].as_str().unwrap_or(""));
+	std::env::set_var("SHELL", "sh");
+	std::env::set_current_dir(&dir).unwrap();
+	let helper = std::env::current_exe().unwrap().with_file_name("simchild");
+	let mut argv = vec!["watchexec".to_owned(), "--project-origin".into(), dir.to_string_lossy().into_owned(), "-n".into(), "--ignore-nothing".into()];
+	argv.extend(strs(&case["args"]));
+	argv.push("--".into());
+	argv.push(helper.to_string_lossy().into_owned());
+	let args = match watchexec_cli::verif::args_from(argv).await {
+		Ok(a) => a,
+		Err(e) => return json!({"id": id, "error": format!("{e}")}),
+	};
+	let state = watchexec_cli::verif::new_state(&args).await.unwrap();
+	let config = watchexec_cli::verif::make_config(&args, &state).unwrap();
+	// no file watching, no signal handling of this process: events are injected
+	config.pathset(Vec::<watchexec::WatchedPath>::new());
+	let wx = watchexec::Watchexec::with_config(config).unwrap();
+	let t0 = mono_ms();
+	let main = wx.main();
+	let mut sent = Vec::new();
+	if !args.events.postpone {
+		wx.send_event(Event::default(), Priority::Urgent).await.unwrap();
+		sent.push(json!({"k": "startup", "t": mono_ms()}));
+	}
+	for ev in case["events"].as_array().unwrap() {
+		let at = ev["at_ms"].as_u64().unwrap() as u128;
+		let now = mono_ms() - t0;
+		if at > now {
+			tokio::time::sleep(Duration::from_millis((at - now) as u64)).await;
+		}
+		let e = match ev["k"].as_str().unwrap() {
+			"change" => Event { tags: vec![Tag::Path { path: dir.join("f.txt"), file_type: Some(FileType::File) }], metadata: Default::default() },
+			"signal" => Event { tags: vec![Tag::Signal(wxharness::evgen::mk_signal(&ev["sig"]))], metadata: Default::default() },
+			"eof" => Event { tags: vec![Tag::Keyboard(watchexec_events::Keyboard::Eof)], metadata: Default::default() },
+			o => panic!("event {o}"),
+		};
+		let ok = wx.send_event(e, Priority::Normal).await.is_ok();
+		sent.push(json!({"k": ev["k"], "t": mono_ms(), "ok": ok, "sig": ev["sig"]}));
+	}
+	let wait = case["wait_ms"].as_u64().unwrap_or(3000);
+	let res = tokio::time::timeout(Duration::from_millis(wait), main).await;
+	let t_end = mono_ms();
+	let main_res = match res {
+		Ok(r) => format!("{:?}", r.map(|x| x.map_err(|e| e.to_string()))),
+		Err(_) => "timeout".into(),
+	};
+	tokio::time::sleep(Duration::from_millis(80)).await;
+	let log: Vec<Value> = std::fs::read_to_string(&out).unwrap_or_default().lines().filter_map(|l| serde_json::from_str(l).ok()).collect();
+	// which logged pids are still alive?
+	let mut alive = Vec::new();
+	for l in &log {
+		if let Some(pid) = l["pid"].as_i64() {
+			if unsafe { libc::kill(pid as i32, 0) } == 0 && !alive.contains(&pid) {
+				alive.push(pid);
+			}
+		}
+	}
+	for pid in &alive {
+		unsafe { libc::kill(*pid as i32, libc::SIGKILL) };
+	}
+	json!({"id": id, "t0": t0 as u64, "sent": sent, "child_log": log, "main": main_res, "t_end": t_end as u64, "alive_after": alive})
 }
